@@ -18,7 +18,7 @@ flags:  std=8      only valid from Fortran 2008
 
 def V(text, **kw):
     d = {"text": text, "std": 3, "one": False, "req": "", "where": False, "forall": False,
-         "bdata": False, "blk": False, "mod": True, "proc": True, "head": False, "solo": False}
+         "bdata": False, "blk": False, "mod": True, "proc": True, "head": False, "solo": False, "reorders": False}
     d.update(kw)
     return d
 
@@ -472,7 +472,7 @@ UNIT["sub"] += [V("subroutine {N}() bind(c)"), V("subroutine {N}() bind(c, name=
                 V("elemental subroutine {N}(arg1)"), V("module subroutine {N}(arg1)", std=99)]
 UNIT["fun"] += [V("function {N}() bind(c)"), V("function {N}() result(res) bind(c, name='f_{N}')"), V("pure function {N}()"),
                 V("real function {N}() result(res)"), V("elemental integer(kind=8) function {N}(arg1) result(res)"),
-                V("function {N}(arg1, arg2) bind(c, name='f_{N}') result(res)", std=99)]   # printed with RESULT first: token order not kept (observation)
+                V("function {N}(arg1, arg2) bind(c, name='f_{N}') result(res)", reorders=True)]   # printed with RESULT first (observation): left out of the token law of C02
 # long character literals that hold the characters the reader gives a meaning to (always used, like the core variants)
 _N_S, _N_D = len(SIMPLE), len(DECL)
 SIMPLE += [V("s = 'a long literal with an ! inside it, then a & and a ; and a second ! further on in the text'", one=True),
@@ -480,9 +480,12 @@ SIMPLE += [V("s = 'a long literal with an ! inside it, then a & and a ; and a se
            V("s = (d // 'a\\') // 'b\\\\' // f", one=True),
            V("call sub1('50%', \"x;y\", 'p&q', 'r!s')", one=True),
            V("x = f(g(h(a%b), 'c%d'), obj%arr(i)%c)"),
-           V("x = f(f(f(1, -1.0), -1.0e0), +2.5d0)", one=True)]
+           V("x = f(f(f(1, -1.0), -1.0e0), +2.5d0)", one=True),
+           V("allocate(w(-n:-1), al(-2:n), stat=ierr)", one=True)]
 ALWAYS = {}
-DECL += [V("real, codimension[2, min(n, m):*] :: co9", std=8), V("character(len=*), parameter :: long1 = 'a ! b & c ; d '' e \" f % g ( h ) i'", one=True, blk=True)]
+DECL += [V("real, codimension[2, min(n, m):*] :: co9", std=8), V("character(len=*), parameter :: long1 = 'a ! b & c ; d '' e \" f % g ( h ) i'", one=True, blk=True),
+         # one COMMON statement that comes back to a block it has named before (the lists of the block are concatenated)
+         V("common /b12/ q1 /b13/ q2 /b12/ q3", one=True), V("common // q4, q5 /b14/ q6 // q7", one=True)]
 ALWAYS["s"] = set(range(_N_S + 1, len(SIMPLE) + 1))
 ALWAYS["decl"] = set(range(_N_D + 1, len(DECL) + 1))
 
@@ -588,6 +591,8 @@ def gen_tla(path):
     A("SplitComp == " + tla_set(_spl(COMP)))
     for k in sorted(OPEN):
         A("SplitOpen_%s == %s" % (k, tla_set(_spl(OPEN[k]))))
+    for k in ("sub", "fun"):
+        A("SplitUnit_%s == %s" % (k, tla_set(_spl(UNIT[k]))))
     A("TypeProcOnlyModule == " + tla_set(ids(OPEN["type"], lambda v: not v["proc"])))
     A("=============================================================================")
     with open(path, "w") as f:
